@@ -7,6 +7,7 @@ def obligations(tier):
     obs = [Ob('hooks.shared_unmodified', 'indep/hooks.c', units=['htp_hooks.c', 'htp_list.c'], models=['@libc_model.c'], unwind=6, unwindset=['memcmp.0:80'], restrict_by=[(r'callback|->fn|\\.fn', 'cb0,cb1,cb2')], tier='quick', timeout=300, mem_gb=6,
               statement='htp_hook_run_all leaves the hook object, its list and every callback record bit-identical, and a second run over the same hook behaves exactly like the first', bounds='1..3 callbacks, every combination of OK/DECLINED/STOP/ERROR')]
     obs += [o for o in __import__('C07').obligations(tier)]          # configuration object bit-identical (memcmp) after the real callbacks / header processing
+    obs += [o for o in __import__('C12').obligations(tier) if o.name.startswith('utf8.decode')]      # the shared best-fit map and configuration are not written by the path decoder
     obs.append(Ob('static.scan', 'indep/hooks.c', units=ALLUNITS, static_allow=['bestfit_1252'], unwind=2, tier='quick', timeout=300, mem_gb=6,
                   statement='no object with static storage in the library is writable, except the allow-listed ones which are checked to be const-initialised tables never written by the parsing functions',
                   bounds='all units of /repo/htp; the list of statics is regenerated from the goto symbol table on every run'))
